@@ -21,7 +21,7 @@ func init() {
 			"(nested-once) the nested checkpoint is forwarded only by restoreTasks; freshly created tasks get a context with the checkpoint cleared; " +
 			"(stream-pairs-set) every stream<->value converter pair installed in the checkpointer's tables is read from a field that is written somewhere (NEVER-WRITTEN rule: a never-assigned pair is two nil functions); " +
 			"(pair-table-typing) the pair used for a value pending in a channel is typed like that value — on today's tree it is not (open known finding: the table is keyed by sender while channels hold what the edge handlers returned).",
-		decided:    []string{"stream-pairs-set", "pair-table-typing (open finding)", "checkpoint-fields", "channel-state", "convert-restore-order", "wait-all-before-save", "skip-prehandler", "nested-once"},
+		decided:    []string{"stream-pairs-set", "pair-table-typing (open finding)", "checkpoint-fields", "channel-state", "convert-restore-order", "wait-all-before-save", "skip-prehandler", "nested-once", "visits-all", "rerun-request-recognised", "codec-pointer-depth", "computed-tasks-saved", "empty-stream-roundtrip"},
 		notDecided: []string{"the equivalence itself (same outputs / same node invocations) over all graphs and interrupt sequences", "fidelity of the byte store", "round-trip of values through the serializer (C12)"},
 		run:        runC05,
 	})
